@@ -575,7 +575,40 @@ def rule_validexit(run):
     if n == 0: run.unknown('mulgrids :: repairing operations', 'no call of check(fix=True) found', where='mulgrids.py')
 
 
+def rule_keynorm(run):
+    run.rule('KEYNORM', 'a by-name dictionary keyed by a pair of names is looked up with keys normalised the way its writers normalise them: '
+             'no writer of `connection` sorts the pair (keys keep the order of the connection\'s columns / blocks), so a reader that sorts '
+             'its key misses every connection stored in descending name order', floor=1)
+    prog = run.prog
+    def sorts(fi, e):
+        """does the key expression (or the local it names, bound once in the function) pass through sorted()?"""
+        def has(x): return any(isinstance(c, ast.Call) and call_name(c) == 'sorted' for c in ast.walk(x))
+        if has(e): return True
+        names = set(x.id for x in ast.walk(e) if isinstance(x, ast.Name))
+        for n in walk_no_nested(fi.node):
+            if isinstance(n, ast.Assign) and len(n.targets) == 1 and isinstance(n.targets[0], ast.Name) and n.targets[0].id in names and has(n.value): return True
+        return False
+    writers, readers = [], []
+    for fi in prog.all_functions(['mulgrids']):
+        for n in walk_no_nested(fi.node):
+            if isinstance(n, ast.Subscript) and isinstance(n.value, ast.Attribute) and n.value.attr == 'connection' and norm(n.value.value) in ('self', 'geo'):
+                (writers if isinstance(n.ctx, ast.Store) else readers).append((fi, n, n.slice))
+            if isinstance(n, ast.Compare) and len(n.ops) == 1 and isinstance(n.ops[0], (ast.In, ast.NotIn)) and isinstance(n.comparators[0], ast.Attribute) \
+               and n.comparators[0].attr == 'connection' and norm(n.comparators[0].value) in ('self', 'geo'):
+                readers.append((fi, n, n.left))
+    if not writers: raise AnalysisError('no store into mulgrid.connection found')
+    wsorted = [w for w in writers if sorts(w[0], w[2])]
+    for fi, n, k in readers:
+        key = '%s :: %s' % (fi.short, norm(n)[:70])
+        if sorts(fi, k) and not wsorted:
+            run.violated(key, 'the key is sorted (`%s`) but add_connection() stores the pair in the order of the connection\'s columns: a connection '
+                         'whose first column has the larger name (after rename_column, or added that way round) is not found, so it is reported '
+                         'missing and added a second time' % norm(k)[:60], where=fi.where(n))
+        else: run.ok(key, where=fi.where(n))
+
+
 def check(run):
+    run.guarded('KEYNORM', rule_keynorm)
     run.guarded('LAYCOUNT', rule_laycount)
     run.guarded('VALIDEXIT', rule_validexit)
     run.guarded('NODEOWNER', rule_nodeowner)
